@@ -1,5 +1,6 @@
 #!/bin/sh
 # tools/try_patch.sh <patch> <Cnn> [more Cnn...]  - apply to /repo, run checks, revert.
+[ -z "$(git -C /repo status --porcelain)" ] || { echo "REFUSING: /repo has uncommitted changes (this tool ends with git checkout -- .)"; exit 4; }
 p="$1"; shift
 git -C /repo apply "$p" || { echo "PATCH DOES NOT APPLY: $p"; exit 3; }
 for c in "$@"; do
